@@ -307,6 +307,29 @@ CHECKS = {
         "case space K<=2 with small object content; CIMObject compared by "
         "namespace/class/key names, targets without URI delimiters",
         "DESIGN.md 4-C03", "wireops"),
+    "C09": (
+        "TLA+ compile-session model: requirement machine (Total / PositionInside / "
+        "ReusableAfterFailure over productions x defect classes x include graphs x "
+        "repository rejections) and code-shaped include/error-translation machine, "
+        "model-checked with TLC for every enumerated session; the enumerated sessions "
+        "are rendered to real MOF and replayed on the real compiler, TLC judges the "
+        "recorded compile calls",
+        "TLC enumerates every session of <=3 (quick) / <=4 (thorough) productions plus "
+        "an include file in which one production carries any of 909 defects/variants "
+        "(lexical, token mutations, type/value mismatches, dependencies, include "
+        "cycles, repository rejections with all 26 CIM status codes) and proves that "
+        "the code-shaped compile_file/compile_string machine refines the requirement "
+        "(admissible outcome, error names its own file, compiler reusable, every call "
+        "terminates), while 8 realistic wrong shapes (no include guard, None check "
+        "after use, missing finally, ...) fail; the sessions are rendered with "
+        "randomised spelling and run through compile_string, compile_file and "
+        "compile_mof_string on four repository kinds under a watchdog, followed by "
+        "valid MOF on the same object; TLC decides every clause on the recorded "
+        "exception type, position and result digest.",
+        "small-scope (one defective production per enumerated session; several only "
+        "in seeded random sessions); character strings only (no invalid UTF-8); "
+        "column is checked against the text, not against the reported line",
+        "DESIGN.md 4-C09", "mofcompile"),
     "C10": (
         "TLA+ reference keyed map with set-valued status codes (RepoCore); "
         "code-shaped validation-order + dict/heap machine refinement in TLC; "
